@@ -25,7 +25,7 @@ def ensure_vx():
         subprocess.run(["cargo", "build", "--release", "--offline"], cwd=os.path.join(VERIF, "tools/vx"),
                        env=env, check=True, stdout=subprocess.DEVNULL, stderr=subprocess.DEVNULL)
 
-def gen_unit(unit, w=None, outdir=None, repo=None):
+def gen_unit(unit, w=None, outdir=None, repo=None, vac=True):
     ensure_vx()
     outdir = outdir or os.path.join(WORK, "gen")
     os.makedirs(outdir, exist_ok=True)
@@ -33,6 +33,9 @@ def gen_unit(unit, w=None, outdir=None, repo=None):
     rs = os.path.join(outdir, tag + ".rs")
     js = os.path.join(outdir, tag + ".json")
     cmd = [VX, repo or REPO, os.path.join(VERIF, "specs"), os.path.join(VERIF, "specs", unit + ".vx"), rs, js]
+    # note: -D / --vac arguments follow the five positional ones
+    if vac:
+        cmd.append("--vac")
     if w:
         for k, v in width_vars(w).items():
             cmd += ["-D", f"{k}={v}"]
